@@ -1,3 +1,4 @@
+import GitSizer.Proofs.GraphRun7
 import GitSizer.Proofs.History
 /-! # C02 — Biggest single objects are the true maxima
     Obligations on the REGENERATED code: both `AdjustMax` variants compute the maximum for every
@@ -35,5 +36,19 @@ theorem max_commit_step (h : HistorySize) (oid : Nat) (cs : CommitSize) (size pc
 theorem max_tree_entries_step (h : HistorySize) (oid : Nat) (ts : TreeSize) (size entries : BitVec 32) :
     (HistorySize.recordTree h oid ts size entries).MaxTreeEntries.toNat = max h.MaxTreeEntries.toNat entries.toNat :=
   (recordTree_numbers h oid ts size entries).2.2.2.1
+
+
+/-- **Whole-run maxima.** After any valid run the per-object maxima are the (saturated) true maxima
+    over the delivered objects. -/
+theorem maxima_exact (r : Repo) (ops : List Op) (v : ValidRun r ops) :
+    ∃ st, runOps r ops {} = .ok st ∧
+      st.hist.MaxBlobSize.toNat = min (maxList ((blobsOf ops).map r.blobSize)) (2^32 - 1) ∧
+      st.hist.MaxTreeEntries.toNat = min (maxList ((treesOf ops).map fun t => (r.entries t).length)) (2^32 - 1) ∧
+      st.hist.MaxCommitSize.toNat = min (maxList ((commitsOf ops).map fun c => Repo.sizeOf r c)) (2^32 - 1) ∧
+      st.hist.MaxParentCount.toNat = min (maxList ((commitsOf ops).map fun c => (r.parents c).length)) (2^32 - 1) := by
+  obtain ⟨st, h, _, res⟩ := v.result
+  have b := res.blobs; have t := res.trees; have c := res.commits
+  simp only [blobNums, treeNums, commitNums, List.cons.injEq, and_true] at b t c
+  exact ⟨st, h, b.2.2, t.2.2.2.1, c.2.2.1, c.2.2.2.2⟩
 
 end GitSizer.C02
